@@ -560,6 +560,16 @@ def run_render_case(case):
                 dyn = [o for o in sc.obstacles if isinstance(o, DynamicObstacle)]
                 focus = dyn[0] if dyn else None
             own = case["route"] in ("own", "frames")
+            other = None
+            if case["seed"] % 3 == 0:
+                # a second renderer is alive (one per subplot): it has drawn the same scenario with default parameters
+                # and is not rendered before the renderer of the case is done; what it collected is its own business
+                fig2, ax2 = plt.subplots()
+                other = MPRenderer(ax=ax2)
+                try:
+                    sc.draw(other)
+                except Exception:  # noqa - not what is judged
+                    pass
             rnd = MPRenderer(draw_params=p if own else None, ax=ax, plot_limits=case.get("limits"), focus_obstacle=focus)
             arg = None if own else p
             stale = None
@@ -616,7 +626,7 @@ def run_render_case(case):
                      f"{phase} raised {type(e).__name__}: {str(e)[:120]} in {site} "
                      f"(world {case['world']}, route {case['route']})"), None, info)
     finally:
-        plt.close(fig)
+        plt.close("all")
     # ---------------- observation
     ids = Ids()
     obs_patches = [patch_key(x) for x in patches]
